@@ -180,9 +180,9 @@ def seq_opt_by_walks(rp):
 def run(ctx):
     ctx.prove()
     rng = ctx.rng
-    n_inst = 250 if ctx.quick else 3000
+    n_inst = 250 if ctx.quick else 1500
     dist = {"instances": 0, "feasible": 0, "infeasible": 0, "skipped_capacity_binding": 0, "customers": {1: 0, 2: 0, 3: 0},
-            "qubo_bruteforce": 0, "strict_feasible": 0, "seq_walk_enumerations": 0}
+            "qubo_bruteforce": 0, "strict_feasible": 0, "seq_walk_enumerations": 0, "seq_three_customers": 0}
     from vrpqubo.routing_problem import ArcBasedRoutingProblem, PathBasedRoutingProblem, SequenceBasedRoutingProblem
     seen = set()
     corr = []           # (desc, Gallina term) of every instance, for the correspondence step
@@ -253,7 +253,8 @@ def run(ctx):
                 bad("oracle/arc/qubo", f"minimum of the arc-based default-penalty QUBO is {qv}, optimal routing cost is {opt}", desc, {"grid": grid})
 
         # ---- sequence-based models ----
-        if ncust <= (2 if ctx.quick else 3):
+        # walk enumeration for 3 customers costs ~1-2 s per model: budgeted in the thorough tier
+        if ncust <= 2 or (not ctx.quick and dist["seq_three_customers"] < 150 and not dist.__setitem__("seq_three_customers", dist["seq_three_customers"] + 1)):
             for strict in (False, True):
                 sb = SequenceBasedRoutingProblem(rebuild(desc), strict=strict)
                 sb.set_max_vehicles(ncust)
